@@ -1078,3 +1078,22 @@ func (ff *FuncFacts) Describe(v ssa.Value) string {
 	}
 	return strings.Join(parts, "|")
 }
+
+// OutFacts returns the atoms that hold at the end of block b (conditions only change on
+// edges, so these are the block's entry facts).
+func (ff *FuncFacts) OutFacts(b *ssa.BasicBlock) []*Atom {
+	if b == nil || ff.in[b.Index] == nil {
+		return nil
+	}
+	out := make([]*Atom, 0, len(ff.in[b.Index]))
+	for _, a := range ff.in[b.Index] {
+		out = append(out, a)
+	}
+	sort.Slice(out, func(i, j int) bool { return ff.key(out[i]) < ff.key(out[j]) })
+	return out
+}
+
+// BlockReachable reports whether b is reachable in the facts fixpoint.
+func (ff *FuncFacts) BlockReachable(b *ssa.BasicBlock) bool {
+	return b != nil && ff.in[b.Index] != nil
+}
